@@ -63,29 +63,42 @@ def run_cmd(cmd, cwd=None, timeout=None, env=None):
     return p.returncode, p.stdout
 
 
+def harness_dir():
+    """The harness crate names /repo/yarel as a path dependency. For a relocated repository (VERIF_REPO, used to run the checks
+    against a scratch worktree without touching /repo) a sibling crate directory is generated with the path substituted."""
+    if REPO == "/repo":
+        return HARNESS_DIR
+    tag = hashlib.sha1(REPO.encode()).hexdigest()[:10]
+    d = os.path.join(VERIF, ".tmp", "harness_" + tag)
+    os.makedirs(os.path.join(d, ".cargo"), exist_ok=True)
+    toml = open(os.path.join(HARNESS_DIR, "Cargo.toml")).read().replace('path = "/repo/yarel"', 'path = "%s/yarel"' % REPO)
+    open(os.path.join(d, "Cargo.toml"), "w").write(toml)
+    shutil.copyfile(os.path.join(HARNESS_DIR, ".cargo", "config.toml"), os.path.join(d, ".cargo", "config.toml"))
+    if not os.path.exists(os.path.join(d, "src")):
+        os.symlink(os.path.join(HARNESS_DIR, "src"), os.path.join(d, "src"))
+    return d
+
+
 def harness_target_dir(profile, features):
     tag = profile + ("-" + "-".join(sorted(features)) if features else "")
-    return os.path.join(HARNESS_DIR, "targets", tag)
+    return os.path.join(harness_dir(), "targets", tag)
 
 
 def build_harness(profile="release", features=()):
-    """Build the runner against /repo's current working tree (hooks on). Returns (path, ok, log)."""
+    """Build the runner against the repository's current working tree (hooks on). Returns (path, ok, log)."""
     features = tuple(sorted(features))
+    hdir = harness_dir()
     tdir = harness_target_dir(profile, features)
-    with Lock("cargo-" + os.path.basename(tdir)):
+    with Lock("cargo-" + os.path.basename(hdir) + "-" + os.path.basename(tdir)):
         lock_src = os.path.join(REPO, "Cargo.lock")
         if os.path.exists(lock_src):
-            shutil.copyfile(lock_src, os.path.join(HARNESS_DIR, "Cargo.lock"))
+            shutil.copyfile(lock_src, os.path.join(hdir, "Cargo.lock"))
         cmd = ["cargo", "build", "--offline", "--target-dir", tdir]
         if profile == "release":
             cmd.append("--release")
         if features:
             cmd += ["--features", ",".join(features)]
-        env = dict(ENV)
-        if REPO != "/repo":
-            # path dependency is absolute (/repo/yarel); a relocated repo is patched in
-            cmd += ["--config", 'patch."file:///repo/yarel".yarel.path="%s/yarel"' % REPO]
-        rc, out = run_cmd(cmd, cwd=HARNESS_DIR, env=env, timeout=1800)
+        rc, out = run_cmd(cmd, cwd=hdir, env=dict(ENV), timeout=1800)
         exe = os.path.join(tdir, "release" if profile == "release" else "debug", "runner")
         return exe, rc == 0 and os.path.exists(exe), out
 
@@ -258,7 +271,8 @@ def write_replay(prop, payload):
 
 
 def write_evidence(prop, tier, seed, level, coverage, wall_s, violations, assumptions):
-    os.makedirs(os.path.join(VERIF, "evidence"), exist_ok=True)
+    evdir = os.environ.get("VERIF_EVIDENCE_DIR", os.path.join(VERIF, "evidence"))
+    os.makedirs(evdir, exist_ok=True)
     ev = {
         "property_id": prop,
         "tier": tier,
@@ -269,7 +283,7 @@ def write_evidence(prop, tier, seed, level, coverage, wall_s, violations, assump
         "wall_s": round(wall_s, 2),
         "violations": violations,
     }
-    with open(os.path.join(VERIF, "evidence", prop + ".json"), "w") as f:
+    with open(os.path.join(evdir, prop + ".json"), "w") as f:
         json.dump(ev, f, indent=1)
     return ev
 
